@@ -297,6 +297,12 @@ func arith(op string, a, b *T) *T {
 		if ok1 && x == 0 && op == "+" {
 			return b
 		}
+		if op == "*" && ok2 && y == 1 {
+			return a
+		}
+		if op == "*" && ok1 && x == 1 {
+			return b
+		}
 	}
 	return App(op, a.S, a, b)
 }
